@@ -7,6 +7,7 @@ that the verdict parser sees every rejection. exit 0 = every demonstration behav
 matter, never a verdict about the code).
 """
 import copy
+import json
 import random
 import sys
 
@@ -83,7 +84,8 @@ def _c12(run):
 def _c13(run):
     from harness.props import c13
     evs = c13._trace_job(list(range(20)))
-    k = next(i for i, e in enumerate(evs) if e['obs']['k'] == 'num')
+    # (a nest that delivers a blank into arithmetic is outside the statement: the specification does not constrain its number)
+    k = next(i for i, e in enumerate(evs) if e['obs']['k'] == 'num' and '"blank"' not in json.dumps(e['ast']))
     bad = copy.deepcopy(evs)
     bad[k]['obs']['n'] += 100
     return (lambda e: set(c13.validate(run, e, 'self_C13'))), evs, bad, k
@@ -113,6 +115,22 @@ def _c04(run):
     return verdict, traces, bad, (t + 1, k + 1)
 
 
+def _e2p(run):
+    """Trace_E2P: sessions of three executors over one translation"""
+    from harness.props import e2p, exec_common as xc
+    w = xc.World(run)
+    e2p._W = e2p._lite(w)
+    traces = [e2p.record(e2p._W, random.Random(s), 40) for s in (11, 12, 13)]
+    t, k = next((ti, ei) for ti, tr in enumerate(traces) for ei, e in enumerate(tr) if e['ev'] == 'get' and e['res'].get('k') == 'num' and ei > 10)
+    bad = copy.deepcopy(traces)
+    bad[t][k]['res']['n'] += 1
+
+    def verdict(trs):
+        rej = e2p.validate(run, trs, 'self_E2P')
+        return {(ti, v[0]) for ti, v in rej.items()}
+    return verdict, traces, bad, (t + 1, k + 1)
+
+
 def _c18(run):
     from harness.props import c18
     recs = [{'sheets': [{'title': 'First', 'cells': [{'c': 1, 'r': 1, 'k': 'int'}, {'c': 2, 'r': 3, 'k': 'text'}], 'size': {'cols': 2, 'rows': 3}}], 'chartAt': 0},
@@ -135,7 +153,7 @@ def _c19(run):
     return (lambda e: set(c19.validate(run, e, 'self_C19'))), evs, bad, k
 
 
-DEMOS = {'C04': _c04, 'C18': _c18, 'C19': _c19, 'C02': _c02, 'C10': _c10, 'C11': _c11, 'C12': _c12, 'C13': _c13, 'C14': _c14, 'C15': _c15, 'C16': _c16, 'C17': _c17}
+DEMOS = {'C04': _c04, 'E2P': _e2p, 'C18': _c18, 'C19': _c19, 'C02': _c02, 'C10': _c10, 'C11': _c11, 'C12': _c12, 'C13': _c13, 'C14': _c14, 'C15': _c15, 'C16': _c16, 'C17': _c17}
 
 
 def main(tier='quick', seed=0):
@@ -143,7 +161,7 @@ def main(tier='quick', seed=0):
     os.environ['VERIF_NO_EVIDENCE'] = '1'
     failed = 0
     for prop, demo in DEMOS.items():
-        run = core.Run(prop, 'quick', seed)
+        run = core.Run('C04' if prop == 'E2P' else prop, 'quick', seed)
         try:
             verdict, evs, bad, k = demo(run)
             clean = verdict(evs)
